@@ -6,8 +6,9 @@ are run by one `cargo kani` invocation (cheap kernels share the compile step).""
 
 class Job:
     def __init__(self, name, pkg, module, props, tier="quick", cap_s=300, mem_gb=12, group=None,
-                 owner=None, cls="A", slots=1, note="", encodes=(), bounds="", kargs=(), also=()):
-        self.name = name              # harness function name
+                 owner=None, cls="A", slots=1, note="", encodes=(), bounds="", kargs=(), also=(), fn_name=None):
+        self.name = name              # unique job name
+        self.fn_name = fn_name or name  # harness function name inside `module`
         self.pkg = pkg                # cargo package
         self.module = module          # module path of the harness inside the crate
         self.props = list(props)      # properties whose tagged assertions live in this harness
@@ -26,7 +27,7 @@ class Job:
 
     @property
     def path(self):
-        return self.module + "::" + self.name if self.module else self.name
+        return self.module + "::" + self.fn_name if self.module else self.fn_name
 
 
 FFI = "maybenot-ffi"
@@ -142,19 +143,20 @@ add("k_below_other", MB, FW, ["C07", "C04", "C05"], cap_s=120, group="fw_l0_othe
 L1_PROPS = ["C01", "C02", "C03", "C04", "C05", "C07", "C08", "C09", "C10"]
 L1_STUBS = ("leaf contracts proved by the L0 kernels: sample_timeout/duration/limit/value, below_action_limits, "
             "sample_state (closed form of the uniform draw)")
-for fam, tier, cap in (("fam21", "quick", 600),):
-    add("l1a_transition", MB, FW + "::" + fam, L1_PROPS, tier=tier, cap_s=cap, mem_gb=16, owner="C01", cls="B",
+for fam, tier, cap in (("fam21", "quick", 900), ("fam22", "thorough", 2400), ("fam32", "thorough", 3600)):
+    sfx = "" if fam == "fam21" else "_" + fam
+    add("l1a_transition" + sfx, MB, FW + "::" + fam, L1_PROPS, fn_name="l1a_transition", tier=tier, cap_s=cap, mem_gb=16, owner="C01", cls="B",
         group="l1a_" + fam, kargs=["--no-assertion-reach-checks"],
         encodes=["Framework::transition", "Framework::schedule_action"],
         bounds="one machine step from any Inv-state, any of the 13 events, family " + fam +
                " (S states, K alternatives per row, all action kinds/flags/counter specs symbolic); nested "
                "update_counter replaced by the reference (decided by l1b); " + L1_STUBS)
-    add("l1b_pair", MB, FW + "::" + fam, ["C08", "C10"], tier=tier, cap_s=cap, mem_gb=16, owner="C01", cls="B",
+    add("l1b_pair" + sfx, MB, FW + "::" + fam, ["C08", "C10"], fn_name="l1b_pair", tier=tier, cap_s=cap, mem_gb=16, owner="C01", cls="B",
         group="l1bp_" + fam, kargs=["--no-assertion-reach-checks"],
         encodes=["Framework::update_counter"],
         bounds="two machines of one definition in one framework, machine 1 updates its counters after machine 0 "
                "possibly zeroed its own in the same call; family " + fam + "; " + L1_STUBS)
-    add("l1b_update_counter", MB, FW + "::" + fam, L1_PROPS, tier=tier, cap_s=cap, mem_gb=16, owner="C01", cls="B",
+    add("l1b_update_counter" + sfx, MB, FW + "::" + fam, L1_PROPS, fn_name="l1b_update_counter", tier=tier, cap_s=cap, mem_gb=16, owner="C01", cls="B",
         group="l1b_" + fam, kargs=["--no-assertion-reach-checks"],
         encodes=["Framework::update_counter"],
         bounds="one counter update from any Inv-state, any u64 counter values, family " + fam +
